@@ -6,6 +6,7 @@ from ..gtlib import cq, cvec, cmat, cb3, cbool, cseq, jarr, Obs
 from . import common as C, lin, c16
 
 PROP = "C14"
+WIDEN_MAX = 150          # extra thorough-generator cases when the anchored sources have drifted (harness/drift.py)
 PROPS_FILE = "props/C14.v"
 RULE = ("cases = integrate('log u(x)', factor=f) for every factor kind (general, rank-one, linear, constant, measure, density) with "
         "factor batch 1 or R, measures and densities with R in 1..3, D in 1..4; integrate_log_conditional(q) for the five "
